@@ -56,6 +56,12 @@ func (t *tx) render(ctx string, qual map[string]string) string {
 		return "map[" + t.key.render(ctx, qual) + "]" + t.elem.render(ctx, qual)
 	case "chan":
 		return t.dir + " " + t.elem.render(ctx, qual)
+	case "structlit":
+		// an anonymous struct type; name holds the tag of its only field (tags are part of type identity)
+		if t.name == "" {
+			return "struct{ ID int }"
+		}
+		return "struct {\n\t\tID int `" + t.name + "`\n\t}"
 	case "func":
 		var ps, rs []string
 		for _, p := range t.params {
@@ -197,7 +203,7 @@ type c05pair struct {
 var c05features = []string{
 	"plain", "plain", "plain", "ptr-depth-plus", "ptr-depth-minus", "byte-uint8", "rune-int32", "any-iface", "alias-named", "alias-basic", "int-int64",
 	"slice-variadic", "chan-dir", "result-count", "param-count", "method-renamed", "method-dropped", "recv-pointer", "embed-value", "embed-ptr", "embed-iface",
-	"iface-embeds-iface", "T-is-interface", "T-nonstruct", "inner-map-elem", "inner-func-result", "array-len", "named-other-pkg", "param-order", "same-pkgname-composite", "same-pkgname-named", "sealed-promoted-from-embedded-base", "sealed-own-unexported-method", "deep-embedding-all-present", "deep-embedding-deep-method-missing", "deep-embedding-deep-method-wrong", "T-is-alias-all-present", "T-is-alias-method-dropped", "xsealed-promoted-from-embedded-base", "xsealed-own-unexported-method",
+	"iface-embeds-iface", "T-is-interface", "T-nonstruct", "inner-map-elem", "inner-func-result", "array-len", "named-other-pkg", "param-order", "same-pkgname-composite", "same-pkgname-named", "sealed-promoted-from-embedded-base", "sealed-own-unexported-method", "deep-embedding-all-present", "deep-embedding-deep-method-missing", "deep-embedding-deep-method-wrong", "T-is-alias-all-present", "T-is-alias-method-dropped", "xsealed-promoted-from-embedded-base", "xsealed-own-unexported-method", "struct-tag-differs", "struct-tag-same",
 }
 
 func genPair(r *base.Rand, idx int, feature string) *c05pair {
@@ -250,6 +256,10 @@ func genPair(r *base.Rand, idx int, feature string) *c05pair {
 	case "slice-variadic":
 		m0.variadic = false
 		m0.params = append(m0.params, &tx{kind: "slice", elem: basic("string")})
+	case "struct-tag-differs":
+		ensureParam(base.Pick(r, []*tx{{kind: "structlit"}, {kind: "slice", elem: &tx{kind: "structlit"}}, {kind: "structlit", name: `json:"id"`}}))
+	case "struct-tag-same":
+		ensureParam(&tx{kind: "structlit", name: `json:"id"`})
 	case "chan-dir":
 		ensureParam(&tx{kind: "chan", dir: "chan", elem: basic("int")})
 	case "inner-map-elem":
@@ -332,6 +342,17 @@ func genPair(r *base.Rand, idx int, feature string) *c05pair {
 	case "slice-variadic":
 		t0.variadic = true
 		t0.params[len(t0.params)-1] = basic("string")
+	case "struct-tag-differs":
+		// the same field, another (or no) tag: a different type
+		st := t0.params[0]
+		if st.kind == "slice" {
+			st = st.elem
+		}
+		if st.name == "" {
+			st.name = `json:"id"`
+		} else {
+			st.name = base.Pick(r, []string{"", `json:"ID"`})
+		}
 	case "chan-dir":
 		t0.params[0].dir = "<-chan"
 	case "result-count":
@@ -406,6 +427,17 @@ type c05module struct {
 	// per impl file: how packages are imported
 	fileQual []map[string]string
 	special  map[int]string // pair idx -> annotation feature (IMPL01/IMPL02/… cases)
+}
+
+// featureStride: the modules start their walk through the feature list this far apart - co-prime with the length of the
+// list and with the cycle lengths (7, 8, 2) of the annotation-level variations that are derived from the same counter, so that
+// every feature meets every variation.
+func featureStride() int {
+	s := 11
+	for gcdInt(s, len(c05features)) != 1 || s%7 == 0 || s%2 == 0 {
+		s++
+	}
+	return s
 }
 
 func genModule(r *base.Rand, nPairs int, startFeature int) *c05module {
@@ -871,7 +903,7 @@ func checkC05(replay string) {
 	classes := map[string]int{}
 	base.Par(nMod, 0, func(mi int) {
 		rng := base.NewRand(r.Seed, fmt.Sprintf("c05-%d", mi))
-		m := genModule(rng, perMod, mi*7)
+		m := genModule(rng, perMod, mi*featureStride())
 		root := ggrun.Scratch()
 		defer os.RemoveAll(root)
 		ggrun.WriteTree(root, m.files)
